@@ -5,9 +5,10 @@ usage: tools_refac_eval.py <dir with refactorN.diff> [--quick]   -> applies each
 NOT-BENIGN and not counted."""
 import glob, json, os, shutil, subprocess, sys, tempfile
 V = "/verif"
+CHK = os.environ.get("VERIF_CHECK_DIR", V)   # a frozen `git worktree` snapshot of /verif when edits go on meanwhile
 d = sys.argv[1]
 tier = "quick" if "--quick" in sys.argv else "thorough"
-claimed = [c["property_id"] for c in json.load(open(V + "/MANIFEST.json"))["checks"]]
+claimed = [c["property_id"] for c in json.load(open(CHK + "/MANIFEST.json"))["checks"]]
 tot = alarms = 0
 for patch in sorted(glob.glob(d + "/refactor*.diff")):
     wt = tempfile.mkdtemp(prefix="ffz-refac-", dir="/tmp")
@@ -35,7 +36,7 @@ for patch in sorted(glob.glob(d + "/refactor*.diff")):
         env2 = dict(os.environ, VERIF_REPO=wt, VERIF_EVIDENCE_DIR=os.path.join(wt, "_evidence"), VERIF_FACT_CACHE="1")
         bad = []
         for c in claimed:
-            p = subprocess.run([V + "/check", c, "--tier", tier], capture_output=True, text=True, env=env2, cwd=V)
+            p = subprocess.run([CHK + "/check", c, "--tier", tier], capture_output=True, text=True, env=env2, cwd=CHK)
             if p.returncode != 0:
                 ls = [l for l in p.stdout.splitlines() if ": SA-" in l or "FLOOR" in l or "ANCHOR" in l or "SHAPE" in l or "fact extraction" in l]
                 bad.append((c, [l[:330] for l in ls[:2]]))
